@@ -61,3 +61,26 @@ Theorem C11_generated_omission_switches : forall c,
   CtxOptions.should_omit_table_parens false c = CallForm.omit_table (CtxOptionsProof.cmode_of c).
 Proof. intros c. split; [exact (CtxOptionsProof.omit_string_switch c) | exact (CtxOptionsProof.omit_table_switch c)]. Qed.
 Print Assumptions C11_generated_omission_switches.
+
+(* L0 - the whole-formatter model on a fragment of Lua 5.1 (Fmt0.v), tied to the binary byte for byte on every run under
+   every call_parentheses and space_after_function_names value: in what format0 prints, EVERY call site - at any depth,
+   in any statement - has the form the option asks for (CallForm.form_ok: parentheses under Always; none around a single
+   string / table under None / NoSingleString / NoSingleTable unless an index or a method call follows; ...) *)
+From Coq Require Import String.
+From SV Require Fmt0 Fmt0Proof.
+Theorem C11_L0_every_call_obeys_call_parentheses : forall c p,
+  Fmt0Proof.sall_b (Fmt0Proof.calls_ok (Fmt0.callp0 c) false) (Fmt0.norm0 c p) = true.
+Proof. exact Fmt0Proof.format0_calls_obey_the_option. Qed.
+Print Assumptions C11_L0_every_call_obeys_call_parentheses.
+(* under Input the call-form pass prints every expression exactly as it would have been printed without it *)
+Theorem C11_L0_input_keeps_every_call : forall c e o, Fmt0.pexp c (Fmt0.cexp CallForm.Input o e) = Fmt0.pexp c e.
+Proof. exact Fmt0Proof.cexp_input_prints_the_same. Qed.
+Print Assumptions C11_L0_input_keeps_every_call.
+(* the checker is not vacuous: it rejects `f("s")` under None, `f "s"` under Always, `f "s".x` under None *)
+Local Open Scope string_scope.
+Theorem C11_L0_checker_rejects_wrong_forms :
+  Fmt0Proof.calls_ok CallForm.NoneM false (Fmt0.ECall (Fmt0.EName (Lex.str "f")) false (cons (Fmt0.EStr (Lex.str "s")) nil)) = false
+  /\ Fmt0Proof.calls_ok CallForm.Always false (Fmt0.ECall (Fmt0.EName (Lex.str "f")) true (cons (Fmt0.EStr (Lex.str "s")) nil)) = false
+  /\ Fmt0Proof.calls_ok CallForm.NoneM false (Fmt0.EField (Fmt0.ECall (Fmt0.EName (Lex.str "f")) true (cons (Fmt0.EStr (Lex.str "s")) nil)) (Lex.str "x")) = false.
+Proof. exact Fmt0Proof.calls_ok_rejects. Qed.
+Print Assumptions C11_L0_checker_rejects_wrong_forms.
